@@ -330,6 +330,19 @@ class Comparer(object):
                     qs.append(query.Term(f, v))
             for _ in range(5):
                 qs.append(gen_delete_query(rng, m))
+            # column queries read the sort column instead of postings and have to skip deleted documents themselves
+            if "n" in names and ix.schema["n"].column_type and all(lr.has_column("n") for lr, _ in r.leaf_readers()):
+                from whoosh.query.qcolumns import ColumnQuery
+                nvals = sorted(set(d.get("n") for d in list(live.values()) + list(m.dead.values()) if d.get("n") is not None))
+                for v in rng.sample(nvals, min(3, len(nvals))):
+                    cq = ColumnQuery("n", v)
+                    expc = sorted(sn for sn, d in live.items() if d.get("n") == v)
+                    notec = "query %r" % (cq,)
+                    self.ctx.count("c07.column_query_checks")
+                    eq("search", expc, serials([h.docnum for h in s.search(cq, limit=None)], "search"), notec)
+                    eq("docs_for_query", expc, serials(list(s.docs_for_query(cq)), "docs_for_query"), notec)
+                    eq("search.unscored", expc, serials([h.docnum for h in s.search(cq, limit=None, scored=False)], "search.unscored"), notec)
+                    eq("search.limit.len", len(expc), len(s.search(cq, limit=1)), notec)
             for q in qs:
                 try:
                     expd = sorted(sn for sn, d in live.items() if matches(q, d))
